@@ -13,6 +13,9 @@ pub enum ProgramKind {
   AllTests,
   SingleTest,
   IllTyped,
+  /// synthetic well-typed multi-module programs (call DAG across modules, wrappers forwarding
+  /// parameters, constants at some call sites only, generics at several types, enums, closures)
+  Synthetic,
 }
 
 impl ProgramKind {
@@ -21,6 +24,7 @@ impl ProgramKind {
       ProgramKind::AllTests => "P1_all_tests",
       ProgramKind::SingleTest => "P2_single_test",
       ProgramKind::IllTyped => "P3_ill_typed",
+      ProgramKind::Synthetic => "P4_synthetic_well_typed",
     }
   }
 }
@@ -75,6 +79,7 @@ impl Program {
     let kind = match v["kind"].as_str().unwrap_or("") {
       "P1_all_tests" => ProgramKind::AllTests,
       "P2_single_test" => ProgramKind::SingleTest,
+      "P4_synthetic_well_typed" => ProgramKind::Synthetic,
       _ => ProgramKind::IllTyped,
     };
     Program {
@@ -250,6 +255,149 @@ impl Corpus {
       overrides.insert(m.clone());
     }
     Program { name: format!("synthetic ill-typed #{k}"), kind: ProgramKind::IllTyped, sources, entry_points: vec![names[0].clone()], overrides }
+  }
+
+  /// P4: a well-typed, terminating program: functions form a DAG (a function only calls functions
+  /// generated before it), spread over several modules and classes so that their relative order in
+  /// every table of the compiler depends on hash seeds and module enumeration order.
+  pub fn p4(&self, rng: &mut Rng, k: usize) -> Program {
+    let n_modules = rng.range(3, 6);
+    let mod_names: Vec<ModName> = (0..n_modules)
+      .map(|i| match rng.below(3) {
+        0 => vec![format!("M{i}")],
+        1 => vec!["lib".into(), format!("Part{i}")],
+        _ => vec!["DirectoryWithLongName".into(), format!("ModuleNumber{i}")],
+      })
+      .collect();
+    // classes: (module index, class name); a class name may repeat in different modules only if
+    // never imported together, so keep them globally unique but similar
+    struct F {
+      class: usize,
+      name: String,
+      params: usize,
+      body: String,
+    }
+    let n_classes = rng.range(n_modules, n_modules + 4);
+    let classes: Vec<(usize, String)> = (0..n_classes).map(|c| (if c < n_modules { c } else { rng.below(n_modules) }, format!("{}{c}", rng.pick(&["Calc", "Helper", "Worker", "AVeryLongUtilityClassName"])))).collect();
+    let mut fns: Vec<F> = Vec::new();
+    let n_fns = rng.range(6, 18);
+    let lits = [0i32, 1, 2, 3, 5, 7, 10, 100, 500, 600];
+    for i in 0..n_fns {
+      let class = rng.below(n_classes);
+      let params = rng.range(1, 3);
+      let pn: Vec<String> = (0..params).map(|p| format!("p{p}")).collect();
+      let callee_arg = |rng: &mut Rng, pn: &Vec<String>| -> String {
+        match rng.below(4) {
+          0 => format!("{}", rng.pick(&lits)),
+          1 | 2 => rng.pick(pn).clone(),
+          _ => format!("{} + {}", rng.pick(pn), rng.pick(&lits)),
+        }
+      };
+      let body = if i == 0 || rng.chance(1, 4) {
+        // leaf: arithmetic on parameters
+        let a = rng.pick(&pn).clone();
+        let b = rng.pick(&pn).clone();
+        match rng.below(4) {
+          0 => format!("{a} + {}", rng.pick(&lits)),
+          1 => format!("{a} * {} + {b}", rng.pick(&[2, 3, 5])),
+          2 => format!("if {a} < {} {{ {b} + 1 }} else {{ {a} - {b} }}", rng.pick(&lits)),
+          _ => format!("{a} - {b} + {}", rng.pick(&lits)),
+        }
+      } else if rng.chance(1, 3) {
+        // wrapper: forwards its own parameters unchanged to an earlier function
+        let j = rng.below(i);
+        let args: Vec<String> = (0..fns[j].params).map(|_| rng.pick(&pn).clone()).collect();
+        format!("{}.{}({})", classes[fns[j].class].1, fns[j].name, args.join(", "))
+      } else {
+        // combines two earlier functions
+        let j1 = rng.below(i);
+        let j2 = rng.below(i);
+        let a1: Vec<String> = (0..fns[j1].params).map(|_| callee_arg(rng, &pn)).collect();
+        let a2: Vec<String> = (0..fns[j2].params).map(|_| callee_arg(rng, &pn)).collect();
+        let op = *rng.pick(&["+", "-", "*"]);
+        let c1 = format!("{}.{}({})", classes[fns[j1].class].1, fns[j1].name, a1.join(", "));
+        let c2 = format!("{}.{}({})", classes[fns[j2].class].1, fns[j2].name, a2.join(", "));
+        if rng.chance(1, 3) {
+          format!("{{\n    let first = {c1};\n    let second = (x: int) -> x {op} {c2};\n    second(first)\n  }}")
+        } else {
+          format!("{c1} {op} {c2}")
+        }
+      };
+      fns.push(F { class, name: format!("{}{i}", rng.pick(&["f", "compute", "aFunctionWithALongName"])), params, body });
+    }
+    let mut sources: BTreeMap<ModName, String> = BTreeMap::new();
+    let mut overrides = BTreeSet::new();
+    // a shared generic container and an enum, used at several types
+    let shared: ModName = vec!["shared".into(), "Containers".into()];
+    sources.insert(
+      shared.clone(),
+      "class Box<T>(val content: T) {\n  method get(): T = this.content\n  method <R> map(f: (T) -> R): Box<R> = Box.init(f(this.content))\n}\n\nclass Shape(Circle(int), Square(int), Named(Str, int), Empty) {\n  method area(): int = match this { Circle(r) -> r * r * 3, Square(s) -> s * s, Named(_, v) -> v, Empty -> 0 }\n  method label(): Str = match this { Circle(_) -> \"circle\", Square(_) -> \"square\", Named(n, _) -> n, Empty -> \"empty\" }\n}\n".to_string(),
+    );
+    overrides.insert(shared.clone());
+    for (mi, m) in mod_names.iter().enumerate() {
+      let mut t = String::new();
+      // imports: every class of other modules that functions here call
+      let mut needed: BTreeMap<usize, BTreeSet<String>> = BTreeMap::new();
+      for f in fns.iter().filter(|f| classes[f.class].0 == mi) {
+        for (ci, (cm, cn)) in classes.iter().enumerate() {
+          let _ = ci;
+          if *cm != mi && f.body.contains(&format!("{cn}.")) {
+            needed.entry(*cm).or_default().insert(cn.clone());
+          }
+        }
+      }
+      for (cm, names) in &needed {
+        t.push_str(&format!("import {{ {} }} from {};\n", names.iter().cloned().collect::<Vec<_>>().join(", "), mod_names[*cm].join(".")));
+      }
+      if !needed.is_empty() {
+        t.push('\n');
+      }
+      for (ci, (cm, cn)) in classes.iter().enumerate() {
+        if *cm != mi {
+          continue;
+        }
+        t.push_str(&format!("class {cn} {{\n"));
+        for f in fns.iter().filter(|f| f.class == ci) {
+          let ps: Vec<String> = (0..f.params).map(|p| format!("p{p}: int")).collect();
+          t.push_str(&format!("  function {}({}): int = {}\n\n", f.name, ps.join(", "), f.body));
+        }
+        t.push_str("}\n\n");
+      }
+      sources.insert(m.clone(), t);
+      overrides.insert(m.clone());
+    }
+    // main: call every function from here with literals; different literals for the same function
+    let main: ModName = vec!["app".into(), "Main".into()];
+    let mut t = String::new();
+    let mut by_mod: BTreeMap<usize, BTreeSet<String>> = BTreeMap::new();
+    for (cm, cn) in &classes {
+      if fns.iter().any(|f| &classes[f.class].1 == cn) {
+        by_mod.entry(*cm).or_default().insert(cn.clone());
+      }
+    }
+    for (cm, names) in &by_mod {
+      t.push_str(&format!("import {{ {} }} from {};\n", names.iter().cloned().collect::<Vec<_>>().join(", "), mod_names[*cm].join(".")));
+    }
+    t.push_str("import { Box, Shape } from shared.Containers;\n\nclass Main {\n  function main(): unit = {\n");
+    for (i, f) in fns.iter().enumerate() {
+      for _ in 0..rng.range(1, 2) {
+        let args: Vec<String> = (0..f.params).map(|_| format!("{}", rng.pick(&lits))).collect();
+        t.push_str(&format!("    Process.println(\"f{i}=\" :: Str.fromInt({}.{}({})));\n", classes[f.class].1, f.name, args.join(", ")));
+      }
+    }
+    t.push_str("    Process.println(Str.fromInt(Box.init(20).map((x) -> x + 1).get()));\n");
+    t.push_str("    Process.println(Box.init(\"a string literal\").map((x) -> x :: \"!\").get());\n");
+    t.push_str("    Process.println(Box.init(Shape.Named(\"a named shape\", 9)).map((x) -> x.label()).get());\n");
+    t.push_str("    Process.println(Str.fromInt(Shape.Circle(2).area() + Shape.Square(3).area() + Shape.Empty().area()));\n");
+    t.push_str("  }\n}\n");
+    sources.insert(main.clone(), t);
+    overrides.insert(main.clone());
+    // tuples module backs tuple syntax; std is not otherwise needed
+    let tuples = vec!["std".to_string(), "tuples".to_string()];
+    if let Some(x) = self.files.get(&tuples) {
+      sources.insert(tuples, x.clone());
+    }
+    Program { name: format!("synthetic well-typed #{k}"), kind: ProgramKind::Synthetic, sources, entry_points: vec![main], overrides }
   }
 
   fn p3_from_corpus(&self, rng: &mut Rng, k: usize) -> Program {
